@@ -6,6 +6,8 @@ Operations (label tuples):
               'follow'   action schedules a 'log' event for the same asset at now+arg (from INSIDE the action)
               'pause' / 'unpause' / 'cancel'   action calls env.<kind>_matching_events(arg) from inside
               'past'     action tries to schedule before now (must raise ValueError, change nothing)
+              'boom'     action raises; the caller of step() catches the exception and carries on (such an event is
+                         only dispatched by a plain step: no run is opened while one is pending)
   ('pause', a) ('unpause', a) ('cancel', a)   the public calls, from outside
   ('past',)                                   schedule_event(now-0.5, ...) from outside: ValueError, nothing changes
   ('step', key)                               one real Environment.step() with the tie-break choice `key`
@@ -41,6 +43,10 @@ class EnvAction:
 
 class _PrefixDone(Exception):
     pass
+
+
+class Boom(Exception):
+    '''Raised by an action of kind 'boom' (a user callback that fails); the caller of step() handles it and carries on.'''
 
 
 def rec_key(r):
@@ -173,8 +179,9 @@ class EnvWorld(CompWorld):
             out.append(('past',))
         if 'step' in self.ext:
             out.extend(self.tie_labels())
-        for d in self.runs:
-            out.append(('run', d))
+        if not any(r[KIND] == 'boom' for r in self.ref.recs):
+            for d in self.runs:
+                out.append(('run', d))
         return self.restrict_first(out)
 
     def done(self):
@@ -314,7 +321,10 @@ class EnvWorld(CompWorld):
         ref.now = rec[T]
         ref.remove(rec)
         self.cur = rec
-        Environment.step(env)
+        try:
+            Environment.step(env)
+        except Boom:
+            self.facts.append('action_raised')
         self.cur = None
         if env.now != rec[T]:
             raise Violation('clock', f'clock is {env.now} after executing an event due at {rec[T]}')
@@ -337,7 +347,10 @@ class EnvWorld(CompWorld):
         env, ref = self.env, self.ref
         if env.now != self.run_end:
             raise Violation('run_end', f'run ended with the clock at {env.now}, expected {self.run_end}')
-        left = [r for r in ref.recs if r[PAUSED] is None and r[T] <= self.run_end]
+        # (a user event that carries the end marker's own priority and is due exactly at the end ties with it: either order
+        # is a legal tie-break, so it may be left pending)
+        left = [r for r in ref.recs if r[PAUSED] is None and
+                (r[T] < self.run_end or (r[T] == self.run_end and float(r[P]) > float(EventType.TERMINATE)))]
         if left:
             raise Violation('run_end', f'run to {self.run_end} ended with due events pending: {left}')
         self.mode = 'idle'
@@ -370,6 +383,8 @@ class EnvWorld(CompWorld):
             self._pcu(k, rec[ARG])
         elif k == 'past':
             self._past()
+        elif k == 'boom':
+            raise Boom()
         else:
             raise HarnessError(f'unknown action kind {k}')
 
